@@ -136,7 +136,10 @@ def replay(p):
         return (set(rows) != want or len(rows) != len(want)), f'get_sym_group_young_diagram({N}) is not exactly the set of partitions'
     if what == 'tableaux':
         shape = tuple(p['shape'])
-        Tb = np.asarray(G.get_all_young_tableaux(shape))
+        try:
+            Tb = np.asarray(G.get_all_young_tableaux(shape))
+        except Exception as e:
+            return True, f'get_all_young_tableaux({shape}) raises {type(e).__name__}: {e}'
         n = sum(shape)
         cells = [(r, c) for r in range(len(shape)) for c in range(shape[r])]
         seen = set()
@@ -194,7 +197,11 @@ def run(chk):
               elements='symbolic (8-bit, constrained below the order): one query per axiom per table', partition_recurrence_N=Nrec, young_diagram_N=Nyoung, tableaux_N=Ntab)
     chk.assume('the tables/lists are produced by running the real constructors (their only input is a size); the solver decides the quantified axioms over symbolic elements of the loaded table')
     for name, ctor in tables(quick):
-        T = np.asarray(ctor())
+        try:
+            T = np.asarray(ctor())
+        except Exception as e:
+            chk.report_reproduced(f'{name}: shape/order', f'constructor of {name} raises {type(e).__name__}: {e}', {'what': 'group', 'table': name, 'axiom': 'assoc'}, 'c14')
+            continue
         N = len(T)
         chk.configurations += 1
         rpg = lambda ax: ('c14', lambda m, name=name, ax=ax: {'what': 'group', 'table': name, 'axiom': ax, 'a': int(m.get('a', 0)), 'b': int(m.get('b', 0)), 'c': int(m.get('c', 0))})
@@ -297,8 +304,12 @@ def run(chk):
     # ---- Young diagrams: a symbolic non-increasing vector summing to N equals exactly one listed row
     for N in range(1, Nyoung + 1):
         chk.configurations += 1
-        Y = np.asarray(G.get_sym_group_young_diagram(N))
         rp = ('c14', {'what': 'young', 'N': N})
+        try:
+            Y = np.asarray(G.get_sym_group_young_diagram(N))
+        except Exception as e:
+            chk.report_reproduced('young diagram list', f'get_sym_group_young_diagram({N}) raises {type(e).__name__}: {e}', {'what': 'young', 'N': N}, 'c14')
+            continue
         if Y.ndim != 2 or Y.shape[1] != N:
             chk.add(f'young diagrams N={N}: shape', [], ir.FALSE, key='young diagram list', replay=rp)
             continue
@@ -321,7 +332,11 @@ def run(chk):
         for shape in partitions(N):
             chk.configurations += 1
             rp = ('c14', {'what': 'tableaux', 'shape': list(shape)})
-            Tb = np.asarray(G.get_all_young_tableaux(shape))
+            try:
+                Tb = np.asarray(G.get_all_young_tableaux(shape))
+            except Exception as e:
+                chk.report_reproduced('young tableaux', f'get_all_young_tableaux({shape}) raises {type(e).__name__}: {e}', {'what': 'tableaux', 'shape': list(shape)}, 'c14')
+                continue
             cells = [(r, c) for r in range(len(shape)) for c in range(shape[r])]
             if Tb.ndim != 3 or Tb.shape[1:] != (len(shape), shape[0]):
                 chk.add(f'tableaux {shape}: shape', [], ir.FALSE, key='young tableaux', replay=rp)
